@@ -1136,6 +1136,11 @@ class Gen:
         rng = self.rng
         if len([m for m in self.s.pool if m is not None]) > 8:
             return None
+        if rng.random() < 0.4:
+            # the constructor route with every argument combination, any entry type
+            r = gen_from_value(rng, rng.choice(FROM_VALUE_CLASSES), indent=rng.choice(['    ', '  ', '\t']))
+            if r is not None:
+                return {'op': 'construct', 'v': r}
         t = rng.choice([models.Posting, models.MetaItem, models.Transaction, models.Open, models.Close, models.Balance,
                         models.Note, models.Custom, models.Amount, models.CostSpec, models.Tag, models.Link,
                         models.Currency, models.EscapedString, BlockComment, models.NumberExpr, models.Price, models.Event])
